@@ -3664,6 +3664,11 @@ func (b *SystemBackend) handleWrappingRewrap(ctx context.Context, req *logical.R
 		return nil, errors.New("token is not a valid unwrap token")
 	}
 
+	// From here on use the token's own ID: the request may carry the signed
+	// (server side consistent) form, which revokeOrphan does not decode, so
+	// the original wrapping token and its cubbyhole would never be removed.
+	token = te.ID
+
 	if thirdParty {
 		// Use the token to decrement the use count to avoid a second operation on the token.
 		_, err := b.Core.tokenStore.UseTokenByID(ctx, token)
